@@ -11,9 +11,12 @@ import (
 	abcitypes "github.com/tendermint/tendermint/abci/types"
 	"google.golang.org/protobuf/proto"
 
+	"github.com/shutter-network/rolling-shutter/rolling-shutter/app"
+	"github.com/shutter-network/rolling-shutter/rolling-shutter/medley/verifhook"
 	"github.com/shutter-network/rolling-shutter/rolling-shutter/shmsg"
 
 	"verif/sim/ref"
+	"verif/sim/simfs"
 	"verif/sim/simkit"
 	"verif/sim/simtm"
 )
@@ -21,7 +24,7 @@ import (
 func init() {
 	simkit.Register(&simkit.Property{
 		ID: "C10", Level: "exploration", Bubble: false, Run: runC10,
-		Rule:        "World A, twin run: the same generated valid history is executed on two real app.ShutterApp instances; into one of them 1-4 hostile transactions are injected at Chooser-chosen positions (via CheckTx and/or directly into a block): raw bytes, truncated/bit-flipped valid transactions, valid base64 of short strings, wrong chain id, exact replays, outsider-signed messages of every type (naming real eons/configs), keyper-signed envelopes around structurally invalid payloads (bad address lengths, duplicate receivers, mismatched list lengths, invalid curve points, bad keys, empty message). Oracles: no ABCI call panics; refusal codes as stated; hostile transactions emit no events; every later DeliverTx/EndBlock response to transactions of OTHER senders and the projected state (configs, votes, DKG instances, identities, validators, eon counter, block-seen of keypers) are identical in both twins. Non-trivial = an injected transaction that decodes with a valid signature (reaches message dispatch); distinct = distinct trace hashes among those.",
+		Rule:        "World A, twin run: the same generated valid history is executed on two real app.ShutterApp instances; into one of them 1-4 hostile transactions are injected at Chooser-chosen positions (via CheckTx and/or directly into a block): raw bytes, truncated/bit-flipped valid transactions, valid base64 of short strings, wrong chain id, exact replays, outsider-signed messages of every type (naming real eons/configs), the signature bytes of an earlier keyper transaction in front of another payload, keyper-signed envelopes around structurally invalid payloads (bad address lengths, duplicate receivers, mismatched list lengths, invalid curve points, bad keys, empty message). In 30 % of the runs both nodes are stopped and restarted from their state files between blocks (real PersistToDisk/LoadShutterAppFromFile on simfs); 2 per mille of the runs append a long single-sender history (1200-17000 transactions) and replay old ones. Oracles: no ABCI call panics; refusal codes as stated; hostile transactions emit no events; every later DeliverTx/EndBlock response to transactions of OTHER senders and the projected state (configs, votes, DKG instances, identities, validators, eon counter, block-seen of keypers) are identical in both twins. Non-trivial = an injected transaction that decodes with a valid signature (reaches message dispatch); distinct = distinct trace hashes among those.",
 		Assumptions: []string{"'no effect' is judged on the projection named in the property (events, votes, validator changes, answers to other senders); the per-sender nonce set and block-seen entries of non-keypers are not observable and are excluded"},
 		Real:        []string{"app.ShutterApp", "shmsg", "shutterevents"},
 		Stub:        []string{"Tendermint consensus, mempool, block store (simtm)"},
@@ -33,7 +36,35 @@ func init() {
 func (w *govWorld) hostile() *txInfo {
 	c := w.r.C
 	ti := &txInfo{Kind: "hostile"}
-	switch c.Intn(8, "hostile-kind") {
+	switch c.Intn(9, "hostile-kind") {
+	case 8: // the 65 signature bytes of an earlier keyper transaction in front of another payload
+		var orig *txInfo
+		for _, t := range w.txs {
+			if t.Decodes && t.ChainOK && t.Class == "" && (orig == nil || c.Chance(300, "splice-of")) {
+				orig = t
+			}
+		}
+		if orig == nil {
+			return w.hostile()
+		}
+		raw, err := base64.RawURLEncoding.DecodeString(string(orig.Bytes))
+		if err != nil || len(raw) < 65 {
+			return w.hostile()
+		}
+		donor := simkit.Pick(c, w.keys, "splice-payload-signer")
+		save := w.keys
+		w.keys = []*simtm.Key{donor}
+		fresh := w.txOrdinaryNoReplay([]int{4, 2, 2, 2, 0})
+		w.keys = save
+		fraw, err := base64.RawURLEncoding.DecodeString(string(fresh.Bytes))
+		if err != nil || len(fraw) < 65 {
+			return w.hostile()
+		}
+		// fresh was only a payload donor: it never reaches a node
+		fresh.Class, fresh.Kind = "never-sent", "hostile"
+		ti.Bytes = []byte(base64.RawURLEncoding.EncodeToString(append(append([]byte{}, raw[:65]...), fraw[65:]...)))
+		ti.Class = "spliced"
+		ti.Desc = fmt.Sprintf("signature bytes of tx#%d in front of the payload of (%s)", orig.ID, fresh.Desc)
 	case 0: // raw bytes
 		ti.Bytes = c.Bytes(c.Intn(40, "raw-len"), "raw")
 		ti.Class = "malformed"
@@ -325,7 +356,33 @@ func runC10(r *simkit.Run) {
 		r.Steps++
 	}
 
+	// both nodes may be stopped and started again from their state files between blocks (real
+	// PersistToDisk / LoadShutterAppFromFile on the simulated disk): who may send is part of
+	// what a restart brings back
+	fsys := simfs.New(func(n int, label string) int { return c.Intn(n, label) })
+	verifhook.FS = fsys
+	defer func() { verifhook.FS = nil }()
+	restartBoth := func() {
+		for i, a := range []**app.ShutterApp{&withApp, &twinApp} {
+			path := fmt.Sprintf("/data/c10-%d.gob", i)
+			(*a).Gobpath = path
+			if err := (*a).PersistToDisk(); err != nil {
+				r.InfraFail("PersistToDisk: %v", err)
+			}
+			loaded, err := app.LoadShutterAppFromFile(path)
+			if err != nil {
+				r.Fail("state-file-not-loadable", "restart", "a node cannot load the state file it just wrote: %v", err)
+			}
+			*a = &loaded
+		}
+		r.Eventf("both nodes restarted from their state files at height %d", height)
+		r.Probe("node-restarts")
+	}
+	restartRun := c.Chance(300, "run-with-restarts")
 	for s := 0; s < steps; s++ {
+		if restartRun && len(pending) == 0 && height > 0 && c.Chance(250, "restart-now") {
+			restartBoth()
+		}
 		if injectAt[s] {
 			ti := w.hostile()
 			viaMempool := c.Bool("hostile-via-mempool")
@@ -361,6 +418,39 @@ func runC10(r *simkit.Run) {
 		}
 	}
 	execBlock()
+	// a long history: one keyper has sent thousands of transactions (months of block-seen and DKG
+	// messages); every one of them stays refused when it is sent again
+	if c.Chance(2, "long-history") {
+		k := w.keys[0]
+		total := []int{1200, 4500, 4500, 17000}[c.Intn(4, "long-history-length")]
+		var sent []*txInfo
+		for len(sent) < total {
+			for i := 0; i < 400 && len(sent) < total; i++ {
+				ti := w.mk(k, shmsg.NewBlockSeen(uint64(len(sent)%7)), "blockseen", "long history")
+				pending = append(pending, entry{ti, false})
+				sent = append(sent, ti)
+			}
+			execBlock()
+		}
+		for i := 0; i < 30; i++ {
+			orig := sent[c.Intn(len(sent), "long-history-replay")]
+			if i < 3 {
+				orig = sent[i] // the oldest ones
+			}
+			cp := *orig
+			cp.Kind, cp.Class = "hostile", "replayed"
+			cp.Desc = "REPLAY of #" + fmt.Sprint(orig.ID) + " after a long history"
+			ti := w.record(&cp)
+			var resp abcitypes.ResponseCheckTx
+			call("CheckTx", func() { resp = withApp.CheckTx(abcitypes.RequestCheckTx{Tx: ti.Bytes}) })
+			if resp.Code == 0 {
+				r.Fail("checktx-admits-refusable", "replayed", "CheckTx admitted the replay of tx#%d after %d transactions of the same sender", orig.ID, total)
+			}
+			pending = append(pending, entry{ti, true})
+		}
+		execBlock()
+		r.Probe("long-history-runs")
+	}
 	r.Sample["blocks"] = height
 	r.Sample["hostile"] = nInject
 }
